@@ -140,24 +140,30 @@ def r2(run):
 
 
 def r3(run):
-    b = C.body_or_fail(run, C.APPEND)
+    for b in C.publishers(run.facts):
+        run.touch(b)
+        r3_for(run, b, b.def_)
+
+
+def r3_for(run, b, AP):
+    cut = C.iteration_cut(b)
     sends = [c for c in q.live_calls(b, C.BROADCAST_SEND) if C.frame_typed(c)]
     from .store_shared import store_points
     pts = store_points(b)
     ins = [c for (c, es) in pts]
-    run.exact("broadcast sends in append", len(sends), 1, b.sp)
-    run.floor("store points (insert_frame / spliced batch commit) in append", len(ins), 1, b.sp)
+    run.exact("broadcast sends in %s" % AP.split("::")[-1], len(sends), 1, b.sp)
+    run.floor("store points (insert_frame / spliced batch commit) in %s" % AP.split("::")[-1], len(ins), 1, b.sp)
     if not sends or not ins:
         return
     s = sends[0]
     for i in ins:
-        run.ob("%s|no-store-after-broadcast" % C.APPEND, not q.reaches(b, s.bb, i.bb), s.sp, "insert_frame is not reachable after the broadcast", reason="broadcast-before-store")
+        run.ob("%s|no-store-after-broadcast" % AP, not q.reaches(b, s.bb, i.bb, removed_blocks=cut), s.sp, "insert_frame is not reachable after the broadcast", reason="broadcast-before-store")
     ok_edges = [e for (c, es) in pts for e in es]
     eph_skip = []
     guards = c09.ephemeral_guards(b)   # edges where ttl != Ephemeral
     for (bb, t, lab) in guards:
         eph_skip += q.other_edges(b, bb, [(bb, t, lab)])
-    run.ob("%s|broadcast-after-store" % C.APPEND, bool(ok_edges) and q.dominated(b, s.bb, via_edges=ok_edges + eph_skip), s.sp,
+    run.ob("%s|broadcast-after-store" % AP, bool(ok_edges) and q.dominated(b, s.bb, via_edges=ok_edges + eph_skip), s.sp,
            "every path to the broadcast passes the Ok edge of insert_frame or the 'ttl is Ephemeral' edge", reason="broadcast-before-store")
 
 
